@@ -132,6 +132,10 @@ add("C13", "dverif", "exploration",
     "Real time: a case whose leader changes or that meets timeouts gives no verdict. Roles = stable leader / stable follower (deposed-leader windows are C12's, on the simulator).",
     PBT + "generated (role, path, policy, config) combinations on real clusters against a routing-table oracle")
 
+sim("C33", "snapshots enabled (threshold 1..30, retained 1..3), write bursts, lagging/cut-off/crashed followers below the leader's purge boundary, leader and full-cluster restarts; oracle: (a) at every step each node's purge boundary <= highest committed index and <= last_included of the snapshot it holds, (b) committed entries are not lost by compaction, (c) bounded liveness: after the faults stop a probe write succeeds and every live voter applies it within 100 x election_timeout_max — by log or by snapshot, (d) final state of every node == reference model over the committed prefix (snapshot installs included).",
+    "stateful scenario generation with snapshots/purge, purge-boundary invariants + bounded catch-up + model-state oracle",
+    "The simulated state machine and log store persist snapshot metadata / purge boundary correctly; persistence of these by the File/RocksDB engines is decided by C15/C16/C18/C20.")
+
 NOT_YET = "check not built yet; to be decided by property-based testing per DESIGN.md §5 (no other technique substituted)"
 
 def hooks_commits():
